@@ -1511,6 +1511,8 @@ namespace cds { namespace intrusive {
 
                     if ( pCur.ptr() == nullptr ) {
                         // end of the list at level nLevel - goto next level
+                        if ( nLevel == 0 && pPred != m_Head.head())
+                            goto retry; // the last item has just been unlinked: pPred may be the maximum now
                         break;
                     }
 
